@@ -1,11 +1,18 @@
 """C05 — name collisions between a contract and its interfaces are rejected at build time."""
 import itertools
 
-from .. import common as c
+import copy
+import json
+import os
+import random
+
+from .. import casing, common as c, corpus, l2, translate
 
 THEOREMS = [("Sylvia.Thm.C05", "C05." + t) for t in
             ["terminates", "panic_sound", "complete", "spec", "rejects_iff", "spec_bytes"]] + \
-           [("Sylvia.Lemmas.Inter4", "Inter.nextIndex_ongoing"), ("Sylvia.Lemmas.Lex", "Lex.strictTotal")]
+           [("Sylvia.Lemmas.Inter4", "Inter.nextIndex_ongoing"), ("Sylvia.Lemmas.Lex", "Lex.strictTotal"),
+            ("Sylvia.Thm.C05Gen", "C05.nameList_sorted"), ("Sylvia.Thm.C05Gen", "C05.nameList_are_wire_names"),
+            ("Sylvia.Thm.C05Gen", "C05.nameList_length"), ("Sylvia.Thm.Obl.Published", "Obl.published_rule_is_wire_rule")]
 
 
 def hexs(b):
@@ -64,7 +71,8 @@ def run(ctx):
     ]
     ctx.cov["trusted_base"] = ["Lean 4.33 kernel", "axioms: propext, Classical.choice, Quot.sound only (audited)",
                                "correspondence harness harness/rt (Rust) + svmodel driver", "python oracle for disjointness"]
-    c.prove(ctx, ["Sylvia.Thm.C05"], THEOREMS)
+    translate.regenerate()
+    c.prove(ctx, sorted({m for m, _ in THEOREMS}), THEOREMS)
 
     exe = c.build_rt()
     tuples, exhaustive_n = gen_tuples(ctx)
@@ -91,3 +99,137 @@ def run(ctx):
     ctx.cov["rule"] = ("all tuples of <=%d sorted duplicate-free arrays over {a,ab,b,ba} (exhaustive), then random tuples of 0..8 arrays "
                        "with shared prefixes and non-ASCII names; non-trivial = at least two non-empty arrays; distinct by op text"
                        % ctx.size(3, 5))
+
+    lists_stream(ctx)
+    compile_fail_stream(ctx)
+
+
+def lists_stream(ctx):
+    """published lists of generated parts: sorted, duplicate-free, and exactly the top-level keys of the serialised variants"""
+    progs, exes = l2.get_corpus(ctx)
+    rng = random.Random(ctx.seed + 55)
+    ops = {}
+    for p in progs:
+        lst = ops.setdefault(p["id"], [])
+        for kind in ("exec", "query", "sudo"):
+            lst.append("lists " + kind)
+            for idx, pid_, label, ms in l2.parts_of(p, kind):
+                for m in ms:
+                    vals = [corpus.rand_value(rng, a["ty"]) for a in m["args"]]
+                    lst.append("ser %d %s %s %s" % (idx, kind, m["name"], corpus.jtext(vals)))
+    rows, ndiff = l2.execute(ctx, "L2-lists", progs, exes, ops)
+    l2.report_diffs(ctx, "L2-lists", rows)
+    progs_by_id = {p["id"]: p for p in progs}
+    bad = 0
+    cur = None
+    keys = {}
+    for pid, op, a, b in rows + [(None, "lists end", "", "")]:
+        if op.startswith("lists "):
+            if cur is not None:
+                cpid, ckind, got = cur
+                nparts = len(l2.parts_of(progs_by_id[cpid], ckind))
+                want = [sorted(keys.get(i, []), key=lambda s: s.encode()) for i in range(nparts)]
+                if got != want:
+                    bad += 1
+                    ctx.violation("published-list-not-wire-names", "%s lists %s but its parts serialise under %s" % (ckind, got, want),
+                                  {"program": corpus.render_module(progs_by_id[cpid]), "op": "%s lists %s" % (cpid, ckind), "observed": got, "required": want})
+                for l in got:
+                    if l != sorted(set(l), key=lambda s: s.encode()):
+                        bad += 1
+                        ctx.violation("published-list-unsorted", "published list %s is not sorted / duplicate-free" % l,
+                                      {"program": corpus.render_module(progs_by_id[cpid]), "op": "%s lists %s" % (cpid, ckind)})
+            if pid is None:
+                break
+            cur = (pid, op.split()[1], [l.split(",") if l else [] for l in a.split("|")])
+            keys = {}
+        else:
+            part = int(op.split()[1])
+            try:
+                keys.setdefault(part, []).append(list(json.loads(a[3:a.rindex(" ")]))[0])
+            except Exception:
+                keys.setdefault(part, []).append("?" + a)
+    ctx.add_stream("L2-lists", len(rows), len({r[1] for r in rows}), samples=[r[1] for r in rows[:2]], programs=len(progs),
+                   model_disagreements=ndiff, oracle_failures=bad)
+    ctx.cov["traces_validated_against_impl"] += len(rows)
+
+
+BIN_RS = """#[path = "../prelude.rs"]
+mod prelude;
+%s
+fn main() {}
+"""
+
+
+def compile_fail_stream(ctx):
+    """programs whose parts share a wire name (same kind) must fail to build; sharing only across kinds must build"""
+    rng = random.Random(ctx.seed * 3 + 9)
+    n = ctx.size(10, 60)
+    cases = []
+    tries = 0
+    while len(cases) < 2 * n and tries < 50 * n:
+        tries += 1
+        p = corpus.gen_program(rng, len(cases), wild_p=0.3, n_ifaces=rng.choice([1, 2]))
+        kind = rng.choice(["exec", "query", "sudo"])
+        parts = [(i, ms) for i, _, _, ms in l2.parts_of(p, kind) if ms]
+        if len(parts) < 2:
+            continue
+        (ia, msa), (ib, msb) = rng.sample(parts, 2)
+        victim, donor = rng.choice(msa), rng.choice(msb)
+        q = copy.deepcopy(p)
+        collide = len(cases) % 2 == 0
+        # rename `victim`: either to the donor's name (same kind -> overlap) or keep kinds apart (control)
+        for part in q["ifaces"] + [q["contract"]]:
+            for m in part["methods"]:
+                if m["name"] == victim["name"] and m["msg"]["kind"] == kind:
+                    if collide:
+                        m["name"] = donor["name"]
+        if collide:
+            names = [m["name"] for m in q["contract"]["methods"]]
+            if len(names) != len(set(names)) or any(len([m["name"] for m in i["methods"]]) != len({m["name"] for m in i["methods"]}) for i in q["ifaces"]):
+                continue
+        q["id"] = "cf%d" % len(cases)
+        cases.append((q, collide, kind, donor["name"]))
+    d = os.path.join(c.WS, "cfail")
+    toml = "[package]\nname = \"cfail\"\nversion = \"0.0.0\"\nedition = \"2021\"\npublish = false\n\n[dependencies]\n" \
+           "sylvia = { path = \"%s/sylvia\", features = [\"mt\", \"stargate\", \"iterator\", \"cosmwasm_1_4\", \"cosmwasm_2_0\"] }\n" % c.REPO
+    c.write_if_changed(os.path.join(d, "Cargo.toml"), toml)
+    c.write_if_changed(os.path.join(d, "src", "prelude.rs"), open(os.path.join(c.ROOT, "harness", "corpus", "prelude.rs")).read())
+    os.makedirs(os.path.join(d, "src", "bin"), exist_ok=True)
+    keep = set()
+    for q, collide, kind, name in cases:
+        src = corpus.render_module(q).replace("use crate::prelude::*;", "use crate::prelude::*;")
+        c.write_if_changed(os.path.join(d, "src", "bin", q["id"] + ".rs"), BIN_RS % src)
+        keep.add(q["id"] + ".rs")
+    for f in os.listdir(os.path.join(d, "src", "bin")):
+        if f not in keep:
+            os.remove(os.path.join(d, "src", "bin", f))
+    c.ensure_ws_members({"cfail": None})
+    p = c.cargo(["check", "--offline", "-p", "cfail", "--bins", "--keep-going", "--message-format=json"], cwd=c.WS, timeout=3600)
+    failed, overlap_msg = set(), set()
+    for line in p.stdout.split("\n"):
+        if not line.startswith("{"):
+            continue
+        try:
+            j = json.loads(line)
+        except Exception:
+            continue
+        if j.get("reason") == "compiler-message" and j["message"].get("level") == "error":
+            tname = j.get("target", {}).get("name")
+            failed.add(tname)
+            if "Message overlaps between interface and contract impl" in json.dumps(j["message"]):
+                overlap_msg.add(tname)
+    bad = 0
+    for q, collide, kind, name in cases:
+        did_fail = q["id"] in failed
+        if collide and not (did_fail and q["id"] in overlap_msg):
+            bad += 1
+            ctx.violation("overlap-not-rejected", "two parts expose the %s message %r but the contract %s" % (
+                kind, casing.wire_name(name), "compiles" if not did_fail else "fails for another reason"),
+                {"program": corpus.render_module(q), "how": "cargo check of the program in a crate depending on /repo/sylvia"})
+        if not collide and did_fail:
+            bad += 1
+            ctx.violation("disjoint-rejected", "no name is shared within a kind but the contract does not compile",
+                          {"program": corpus.render_module(q)})
+    ctx.add_stream("compile-fail-pairs", len(cases), len(cases), samples=[corpus.render_module(cases[0][0])[:1500]] if cases else [],
+                   must_fail=sum(1 for x in cases if x[1]), must_build=sum(1 for x in cases if not x[1]), oracle_failures=bad,
+                   cargo_exit=p.returncode)
